@@ -38,7 +38,7 @@ ASSUMPTIONS = ['the oracle (vlib/c08_poly.py: sparse multivariate polynomials, n
 BUDGET_S = {'quick': 110, 'thorough': 1500}
 if os.environ.get('VERIF_C08_BUDGET'):   # development aid only (overloaded machine)
     BUDGET_S = {k: int(os.environ['VERIF_C08_BUDGET']) for k in BUDGET_S}
-NCASES = {'quick': 960, 'thorough': 12000}
+NCASES = {'quick': 800, 'thorough': 8000}
 if os.environ.get('VERIF_C08_NCASES'):   # development aid only
     NCASES = {k: int(os.environ['VERIF_C08_NCASES']) for k in NCASES}
 CHUNK = 8
@@ -370,7 +370,7 @@ def gen_case(seed, i, tier):
         sd = spec_simplexdim(spec)
         extra = 0 if spec_affine(spec) else n
         vlim = {0: TENSOR_MAXDEG, 2: TRI_MAXDEG, 3: TET_MAXDEG}[sd]
-        flim = {0: TENSOR_MAXDEG, 2: TENSOR_MAXDEG, 3: TRI_MAXDEG}[sd]
+        flim = {0: TENSOR_MAXDEG, 2: TRI_MAXDEG if spec['kind'] == 'product' else TENSOR_MAXDEG, 3: TRI_MAXDEG}[sd]   # facets of X*Y contain whole X elements
         # choose geometry degree md and field degrees so that the exact integrands fit the available Gauss schemes
         for _ in range(50):
             md = int(rng.choice([1, 2, 3], p=[.3, .4, .3]))
@@ -679,7 +679,7 @@ def run_integral(case, ck):
     lo, hi = sc.b.lo, sc.b.hi
     extra = 0 if sc.b.affine else n
     vlim = {0: 10**6, 1: 10**6, 2: TRI_MAXDEG, 3: TET_MAXDEG}[sc.b.simplexdim]
-    flim = {0: 10**6, 1: 10**6, 2: 10**6, 3: TRI_MAXDEG}[sc.b.simplexdim]
+    flim = {0: 10**6, 1: 10**6, 2: TRI_MAXDEG if hasattr(sc.b, 'factors') else 10**6, 3: TRI_MAXDEG}[sc.b.simplexdim]   # facets of X*Y contain whole X elements
     f0 = pfromjson(case['f'])[()]
     F = pfromjson(case['F'])
     detD = pdet(sc.DPhi)
